@@ -61,7 +61,7 @@ fn set_acts() -> Vec<Act> {
     let mut a = Vec::new();
     for c in [
         vec!["SADD", "s", "a"], vec!["SADD", "s", "b"], vec!["SADD", "s", "a", "b"], vec!["SADD", "s", "c", "c"], vec!["SADD", "s", ""], vec!["SADD", "s"],
-        vec!["SREM", "s", "a"], vec!["SREM", "s", "b", "zz"], vec!["SREM", "s", "a", "b", "c", ""], vec!["SREM", "s", "zz"],
+        vec!["SREM", "s", "a"], vec!["SREM", "s", "b", "zz"], vec!["SREM", "s", "a", "b", "c", ""], vec!["SREM", "s", "zz"], vec!["SREM", "s", "zz", "a", "b"],
         vec!["SPOP", "s", "0"], vec!["SPOP", "s", "9"], vec!["SPOP", "s", "-1"], vec!["SPOP", "s", "x"],
         vec!["SADD", "s2", "a"], vec!["SADD", "s2", "b", "d"], vec!["SREM", "s2", "a"], vec!["SPOP", "s2", "5"],
         vec!["SET", "s", "str"], vec!["DEL", "s"], vec!["LPUSH", "w", "a"], vec!["DEL", "s2"],
@@ -116,7 +116,7 @@ fn hash_acts() -> Vec<Act> {
     for c in [
         vec!["HSET", "h", "f", "v"], vec!["HSET", "h", "f", "w"], vec!["HSET", "h", "g", "5"], vec!["HSET", "h", "f", "1", "g", "2"], vec!["HSET", "h", "f", "1", "f", "2"], vec!["HSET", "h", "f"], vec!["HSET", "h", "f", "1", "g"],
         vec!["HSET", "h", "", ""], vec!["HMSET", "h", "f", "v", "k", "x"], vec!["HMSET", "h", "f"], vec!["HSET", "h", "n", I64MAX], vec!["HSET", "h", "n", "007"],
-        vec!["HDEL", "h", "f"], vec!["HDEL", "h", "zz"], vec!["HDEL", "h", "f", "g", "zz"], vec!["HDEL", "h", "f", "g", "k", "n", ""], vec!["HDEL", "h"],
+        vec!["HDEL", "h", "f"], vec!["HDEL", "h", "zz"], vec!["HDEL", "h", "zz", "f", "g"], vec!["HDEL", "h", "f", "g", "zz"], vec!["HDEL", "h", "f", "g", "k", "n", ""], vec!["HDEL", "h"],
         vec!["HINCRBY", "h", "g", "1"], vec!["HINCRBY", "h", "g", "-7"], vec!["HINCRBY", "h", "f", "1"], vec!["HINCRBY", "h", "n", "1"], vec!["HINCRBY", "h", "g", "x"], vec!["HINCRBY", "h", "g", "1.5"],
         vec!["HINCRBY", "h", "new", "3"], vec!["HINCRBY", "h", "zero", "0"], vec!["HINCRBY", "h", "g", "0"], vec!["HINCRBY", "h", "g", I64MAX], vec!["HINCRBY", "h", "g", "9223372036854775808"], vec!["HINCRBY", "h", "g"],
         vec!["SET", "h", "str"], vec!["DEL", "h"], vec!["LPUSH", "w", "a"],
